@@ -370,6 +370,11 @@ type profile struct {
 	// dupParkedPct: chance that an OPEN that got parked is retransmitted
 	// right away (1-3 times).
 	dupParkedPct int
+	// gatePct: chance that a request that is going to wait behind the
+	// transaction of its open-owner is held at the clock reading of
+	// enter() when it wakes up (so that time and other requests can pass
+	// before it reacquires the server).
+	gatePct int
 	// faultPct: chance that an OPEN or an I/O request carries a
 	// one-shot fault of the file system below the server.
 	faultPct int
@@ -454,6 +459,11 @@ func (w *world) step() {
 		c.vanished = !c.vanished
 		w.label("vanish_toggle")
 		return
+	case "window":
+		if w.reentryWindow() {
+			return
+		}
+		act = kOpen
 	}
 	var live []*cClient
 	for _, c := range w.clients {
@@ -481,20 +491,7 @@ func (w *world) step() {
 			}
 			continue
 		}
-		if oo := w.targetOO(op); oo != nil && oo.txn && oo.waiters > 0 {
-			// Several requests may wait behind the transaction of one
-			// open-owner as long as all of them are identical
-			// retransmissions of the same request: whatever order they
-			// are woken up in, each gets that request's reply. Waiters
-			// that differ in content are excluded, because which of
-			// them the server serves first is up to the scheduler.
-			if !w.allIdenticalWaiters(oo, op) {
-				w.label("excluded_second_waiter_with_other_content")
-				act = kRenew
-				continue
-			}
-			w.label("second_identical_duplicate_waits_behind_original")
-		}
+		w.gateIfWaiting(op)
 		if !w.prof.sharedLO && w.wouldShareLockOwner(op) {
 			// Soundness: one lock-owner is used with at most one open
 			// per file (see ASSUMPTIONS); decided on the server's
@@ -536,9 +533,8 @@ func (w *world) duplicateParked(c *cClient, op *opSpec) {
 		d.Out, d.Park, d.N = "", "", 0
 		d.Fault, d.FaultSt = "", ""
 		d.Retx, d.Note = op.N, "retransmission"
-		if i > 0 {
-			w.label("second_identical_duplicate_waits_behind_original")
-		}
+		d.Gate = false
+		w.gateIfWaiting(&d)
 		w.issue(c, &d)
 	}
 	if w.pct(50, "releaseAfterDuplicates") {
@@ -546,18 +542,58 @@ func (w *world) duplicateParked(c *cClient, op *opSpec) {
 	}
 }
 
-// allIdenticalWaiters reports whether op and every request already
-// waiting behind the transaction of oo are unaltered retransmissions of
-// one and the same request.
-func (w *world) allIdenticalWaiters(oo *mOO, op *opSpec) bool {
+// gateIfWaiting decides how a request that is going to wait behind the
+// transaction of its open-owner wakes up. Requests that wake up on
+// their own all race for the server lock, and the Go scheduler decides
+// who wins; that is only deterministic if it does not matter, i.e. if
+// all of them are identical retransmissions of one and the same request
+// (whatever order they are served in, each gets that request's reply).
+// Every other waiter is held at its clock reading at the top of enter()
+// and let go by the harness, one at a time: the harness owns the order.
+func (w *world) gateIfWaiting(op *opSpec) {
+	oo := w.targetOO(op)
+	if oo == nil || !oo.txn {
+		return
+	}
+	if !op.Gate && w.pct(w.prof.gatePct, "gate") {
+		op.Gate = true
+	}
+	if op.Gate {
+		return
+	}
+	free := w.freeWaiters(oo)
+	if len(free) == 0 {
+		return // the only one that wakes up on its own
+	}
+	if !allIdentical(free, op) {
+		op.Gate = true
+		w.label("waiter_with_other_content_held_at_reentry")
+		return
+	}
+	w.label("second_identical_duplicate_waits_behind_original")
+}
+
+// freeWaiters are the requests waiting behind the transaction of oo that
+// wake up on their own.
+func (w *world) freeWaiters(oo *mOO) []*opSpec {
+	var l []*opSpec
+	for _, x := range w.flights {
+		if x.inf != nil && x.inf.waitOn == oo && !x.op.Gate {
+			l = append(l, x.op)
+		}
+	}
+	return l
+}
+
+// allIdentical reports whether op and the given waiters are unaltered
+// retransmissions of one and the same request.
+func allIdentical(waiters []*opSpec, op *opSpec) bool {
 	if op.Retx == 0 || op.Note != "retransmission" {
 		return false
 	}
-	for _, x := range w.flights {
-		if x.inf != nil && x.inf.waitOn == oo {
-			if x.op.Retx != op.Retx || x.op.Note != "retransmission" {
-				return false
-			}
+	for _, x := range waiters {
+		if x.Retx != op.Retx || x.Note != "retransmission" {
+			return false
 		}
 	}
 	return true
@@ -728,10 +764,15 @@ func (w *world) genOp(c *cClient, kind string) *opSpec {
 				free = append(free, o)
 			}
 		}
-		if len(free) == 0 {
+		var o *cOwner
+		switch {
+		case w.forceOwner != nil:
+			o = w.forceOwner
+		case len(free) == 0:
 			return nil
+		default:
+			o = pick(w, "owner", free)
 		}
-		o := pick(w, "owner", free)
 		op := &opSpec{Kind: kOpen, ClientID: c.useCID(), FH: "root", Owner: o.key, Seq: o.nxt()}
 		// rapid's integers lean towards small values; rotating by the
 		// step number spreads the opens over the files (a lock-owner or
@@ -1301,6 +1342,7 @@ func (w *world) genRetx(c *cClient, mode string) *opSpec {
 	op := *orig
 	op.Out, op.Park, op.N = "", "", 0
 	op.Fault, op.FaultSt = "", "" // faults belong to the environment, not to the request
+	op.Gate = false               // so does the moment at which it wakes up
 	op.Retx = orig.N
 	op.Note = "retransmission"
 	switch mode {
